@@ -62,7 +62,7 @@ class Ctx:
         self.notes = []
         self.bounded_parts = []
         self.samples = []
-        self.timeout_s = 60 if tier == "quick" else 240
+        self.timeout_s = 150 if tier == "quick" else 400
         self.repo = os.environ.get("VERIF_REPO", REPO)
 
     def add_assumption(self, a):
